@@ -280,6 +280,25 @@ func (bc *BlockChain) SetHead(head uint64) error {
 	bc.mu.Lock()
 	defer bc.mu.Unlock()
 
+	// Persist the rewound head pointers before anything is deleted: a crash in between must not
+	// leave a head pointer that refers to a deleted block (the node would reset to genesis)
+	if target := bc.GetBlockByNumber(head); target != nil {
+		if current := bc.CurrentBlock(); current != nil && current.NumberU64() > head {
+			if err := WriteHeadBlockHash(bc.db, target.Hash()); err != nil {
+				log.Crit("Failed to rewind head full block", "err", err)
+			}
+		}
+		if fast := bc.CurrentFastBlock(); fast != nil && fast.NumberU64() > head {
+			if err := WriteHeadFastBlockHash(bc.db, target.Hash()); err != nil {
+				log.Crit("Failed to rewind head fast block", "err", err)
+			}
+		}
+		if header := bc.hc.CurrentHeader(); header != nil && header.Number.Uint64() > head {
+			if err := WriteHeadHeaderHash(bc.db, target.Hash()); err != nil {
+				log.Crit("Failed to rewind head header", "err", err)
+			}
+		}
+	}
 	// Rewind the header chain, deleting all block bodies until then
 	delFn := func(hash common.Hash, num uint64) {
 		DeleteBody(bc.db, hash, num)
